@@ -52,6 +52,10 @@ SCENARIOS += [
     ('bulk-two-timeouts',   [T('t1', 0, timeout=5), T('t2', 0, timeout=7)], []),
     ('two-timeouts',        [T('t1', 0, timeout=5), T('t2', 1, timeout=5)], []),
     ('bulk-timeouts-mixed', [T('t1', 0, timeout=5), T('t2', 0), T('t3', 0, timeout=3)], [['t2']]),
+    # a process ended by a signal nobody in the executor sent (OOM killer, scancel, a user's kill):
+    # Popen.returncode is negative, the task is FAILED with that code (round 6, C05-k)
+    ('signal-exit',         [T('t1', -9)], []),
+    ('signal-cancel',       [T('t1', -11), T('t2', 0)], [['t1']]),
 ]
 
 
